@@ -465,7 +465,8 @@ def requests_corr(ctx, falcon, testing, model, base, root, listing, quick):
         if range_value is not None:
             headers['Range'] = range_value
         if ims is not None:
-            headers['If-Modified-Since'] = http_date(falcon, ims)
+            # an int is a date (seconds); a str is sent verbatim (malformed values)
+            headers['If-Modified-Since'] = ims if isinstance(ims, str) else http_date(falcon, ims)
         with Recording() as ev:
             if mode == 'direct':
                 # the responder itself, bypassing routing (req.path need not match the prefix)
@@ -506,7 +507,7 @@ def requests_corr(ctx, falcon, testing, model, base, root, listing, quick):
             path = '/' + path
         path = encode_url(path, rng)
         rv = gen_range(rng) if rng.random() < 0.5 else None
-        ims = rng.choice([None, None, None, MTIME - 5, MTIME + 10 ** 6,
+        ims = rng.choice([None, None, None, MTIME - 5, MTIME + 10 ** 6, rng.choice(BAD_DATES),
                           rng.choice(mtimes) + rng.choice([-1, 0, 0, 1]),
                           rng.choice(mtimes) + rng.choice([-1, 0, 0, 1])])
         mode = ('direct', 'direct', 'wsgi', 'wsgi', 'asgi')[i % 5]
@@ -521,6 +522,7 @@ def requests_corr(ctx, falcon, testing, model, base, root, listing, quick):
         rel = p[len(root) + 1:]
         for k, rv in enumerate(plain + [r for r in RANGES if r]):
             cases.append((0, '/static/' + rel, rv, None, ('wsgi', 'asgi', 'direct')[k % 3]))
+    cases += combined_block(rng)
     # If-Modified-Since just before / at / just after every file's mtime
     for p, v in sorted(listing.items()):
         if p.startswith(root + '/'):
@@ -537,6 +539,40 @@ def requests_corr(ctx, falcon, testing, model, base, root, listing, quick):
 
 MEDIA_TYPES = {}
 ROUTES = {}
+BAD_DATES = ['yesterday', 'Thu, 99 Foo 2020 25:61:61 GMT', '1600000000', 'Sun, 13 Sep 2020']
+BAD_RANGES = ['bytes=x-y', 'bytes', 'bytes=5-2', 'bytes=0-0,2-3']
+
+
+def wire_ims(ims):
+    if ims is None:
+        return []
+    return [1] if isinstance(ims, str) else [2, ims]
+
+
+# requests that must be 404 whatever else they carry: every class of rejected or unresolvable path
+NOT_FOUND_PATHS = [
+    '/static/../secret.txt', '/static/%2e%2e/secret.txt', '/static/..%2fsecret.txt', '/static/sub/../../secret.txt',
+    '/static/../root-evil/secret2', '/static//a', '/static/sub%2f%2fa', '/static//etc/passwd', '/static/sub%5ca',
+    '/static/..%5csecret.txt', '/static/a%3fb', '/static/a*', '/static/a%00', '/static/%7ea', '/static/a%3ab',
+    '/static/' + 'x' * 600, '/static/a.', '/static/a%20', '/static/%20a', '/static/nope.txt', '/static/sub',
+    '/static/sub/', '/static/sub/deep', '/static/', '/static/.', '/static/a/b', '/static/%c2%85a', '/static/a%ef%bf%bd',
+]
+HEADER_COMBOS = [(None, None), (MTIME - 100, None), ('BAD', None), (None, 'bytes=0-1'), (None, 'BADR'), ('BAD', 'BADR'),
+                 (MTIME + 10 ** 7, 'BADR'), ('BAD', 'bytes=0-1')]
+
+
+def combined_block(rng):
+    """every not-found path class x header combination x {WSGI, ASGI, responder}; and existing
+    files with malformed headers (documented outcome: 400, the date before the range)."""
+    out = []
+    for ci in (0, 1):                       # without and with a fallback file
+        for p in NOT_FOUND_PATHS + ['/static/a', '/static/nine.txt', '/static/empty', '/static/sub/inner.txt']:
+            for ims, rv in HEADER_COMBOS:
+                ims = rng.choice(BAD_DATES) if ims == 'BAD' else ims
+                rv = rng.choice(BAD_RANGES) if rv == 'BADR' else rv
+                for mode in ('wsgi', 'asgi', 'direct'):
+                    out.append((ci, p, rv, ims, mode))
+    return out
 
 
 def pfx_of(cfg):
@@ -572,7 +608,7 @@ def run_cases(ctx, falcon, testing, model, configs, one, cases, listing, files_w
         obs.append((status, hd, body, opened, rpath, matched, nd, fbn, rh, real_match))
         types = [[k, v] for k, v in MEDIA_TYPES.items() if k in rpath or (fbn is not None and k in fbn)]
         wires.append([9, [pfx, nd, ([] if fbn is None else [fbn]), dl], files_wire, 0, rpath,
-                      ([] if ims is None else [ims]), rh, types])
+                      wire_ims(ims), rh, types])
         wires.append([1, pfx, fb is not None, nd, rpath])
     outs = model.run_many(wires)
     corr_break = []
@@ -657,6 +693,15 @@ def run_cases(ctx, falcon, testing, model, configs, one, cases, listing, files_w
         if status not in (200, 206, 304, 400, 404, 416) or (not opened and status != 404):
             ctx.violation('not-404', dict(detail, what='a request that served no file was not answered 404'),
                           key='not-404-%s' % status)
+        # (2c) binding: 400 only for a malformed date / range on a file that was really opened, and then always
+        served_real = bool(opened) and opened[-1] in listing
+        bad_date = isinstance(ims, str)
+        if status == 400 and not (served_real and (bad_date or rh == [1])):
+            ctx.violation('not-404', dict(detail, what='400 although no file is served or no header is malformed'),
+                          key='bad-400')
+        if served_real and bad_date and status != 400 and (mode == 'direct' or matched):
+            ctx.violation('bad-request-violated', dict(detail, what='malformed If-Modified-Since on a served file '
+                                                       'was not answered 400'), key='bad-date-not-400')
         # (3) binding: RFC oracle + body bytes for served files
         if status in (200, 206, 416) and opened:
             f = opened[-1]
@@ -666,10 +711,11 @@ def run_cases(ctx, falcon, testing, model, configs, one, cases, listing, files_w
                 resp_meta.append((k, detail, data, body, got))
         if status == 304 and body:
             ctx.violation('range-clause-violated', dict(detail, what='304 with a body'), key='304-body')
-        if status in (200, 206, 416, 304) and opened and opened[-1] in listing:
+        # the date is evaluated before the range: a not-modified file is a 304 even with a malformed Range
+        if status in (200, 206, 416, 304, 400) and opened and opened[-1] in listing and not isinstance(ims, str):
             ent = listing[opened[-1]]
             # judged on the REAL modification time (st_mtime_ns), not on what the code made of it
-            nm_q.append([8, ent[3], 10 ** 9, ([] if ims is None else [ims])])
+            nm_q.append([8, ent[3], 10 ** 9, ([] if not isinstance(ims, int) else [ims])])
             nm_meta.append((dict(detail, st_mtime_ns=ent[3],
                                  float_mtime_rounds_up=(ent[4][0] // ent[4][1] > ent[1])), status, hd))
     verdicts = model.run_many(contain_q)
@@ -761,7 +807,8 @@ def replay(ctx, obj):
         if range_value is not None:
             headers['Range'] = range_value
         if ims is not None:
-            headers['If-Modified-Since'] = http_date(falcon, ims)
+            # an int is a date (seconds); a str is sent verbatim (malformed values)
+            headers['If-Modified-Since'] = ims if isinstance(ims, str) else http_date(falcon, ims)
         with Recording() as ev:
             cl = ac if mode == 'asgi' else wc
             r = cl.simulate_request(method, path, headers=headers)
